@@ -65,6 +65,12 @@ structure VA where
   /-- `spec.source.persistentVolumeName` -/
   pv : Option Nat
   onNode : Bool
+  /-- the object carries a deletionTimestamp (the attach-detach controller deleted it) but still exists: the CSI
+      external-attacher's finalizer holds it until the volume is really detached.  `filterVolumeAttachments` does not
+      look at it (regenerated fact `Finalize.vaFilterReads`): a terminating attachment blocks like any other. -/
+  terminating : Bool := false
+  /-- `status.attached` is false (attach still in progress, or the detach failed half-way); not read by the code either -/
+  unattached : Bool := false
 deriving Repr, DecidableEq, Inhabited
 
 /-- `a > b` (strict) or `a ≥ b` -/
